@@ -419,14 +419,45 @@ func c17summary(w *World, r *Report) {
 		vals := live.LiveValues(pools)
 		ok := len(vals) > 0
 		for _, v := range vals {
-			o := tr.Origins(v)
-			if want {
-				if _, is := isCallTo(v, "AccountVestingPoolsList.GetGenesisAmount"); !is {
-					ok = false
+			// the choice may sit in a helper that is handed the flag: its live results under the same assumption,
+			// each examined in the helper with the parameters bound to this call's arguments
+			hctx := &tctx{fn: fn}
+			var alts []ssa.Value
+			if hc, isCall := v.(*ssa.Call); isCall && genP != nil {
+				if h := hc.Common().StaticCallee(); h != nil && h.Blocks != nil && w.isProdFunc(h) && !hc.Common().IsInvoke() {
+					for i, a := range hc.Common().Args {
+						if a == ssa.Value(genP) && i < len(h.Params) {
+							hp := h.Params[i]
+							hl := ReachUnder(h, func(base ssa.Value) (bool, bool) {
+								if base == ssa.Value(hp) {
+									return want, true
+								}
+								return false, false
+							})
+							alts = hl.LiveReturns(h, 0)
+							hctx = &tctx{parent: hctx, fn: h, call: hc.Common(), depth: 1}
+						}
+					}
 				}
-			} else {
-				if !(o.HasCall("BankKeeper.GetBalance") && o.HasCall("GetModuleAccount")) || o.HasCall("GetGenesisAmount") {
-					ok = false
+			}
+			if alts == nil {
+				alts = []ssa.Value{v}
+			}
+			if len(alts) == 0 {
+				ok = false
+			}
+			for _, v := range alts {
+				st := &tstate{t: tr, o: newOrigin(), seen: map[string]bool{}}
+				st.trace(v, nil, hctx)
+				o := st.o
+				if want {
+					if _, is := isCallTo(v, "AccountVestingPoolsList.GetGenesisAmount"); !is {
+						ok = false
+					}
+				} else {
+					if !(o.HasCall("BankKeeper.GetBalance") && o.HasCall("GetModuleAccount")) || o.HasCall("GetGenesisAmount") {
+						ok = false
+					}
 				}
 			}
 		}
@@ -446,9 +477,13 @@ func c17summary(w *World, r *Report) {
 	}
 	// genesis filter
 	filt := false
-	for _, s := range cg.Sites[fn] {
-		if calleeIs(s, "x/cfevesting/types.VestingAccountTrace.IsGenesisOrFromGenesis") {
-			filt = true
+	var filtHelpers []*ssa.Function
+	for _, e := range w.effectsBelow(fn, func(s *Site) bool {
+		return calleeIs(s, "x/cfevesting/types.VestingAccountTrace.IsGenesisOrFromGenesis")
+	}, 2) {
+		filt = true
+		if e.Site.Caller != fn {
+			filtHelpers = append(filtHelpers, e.Site.Caller)
 		}
 	}
 	r.Check(filt, "C17.summary", "genesis variant filters by IsGenesisOrFromGenesis", pos, "filter present", "no genesis filter")
@@ -489,6 +524,25 @@ func c17summary(w *World, r *Report) {
 				r.Check(kind != "", "C17.summary", construct, w.Pos(ifPos(sc)), kind, "a recorded account can be left out of the summaries under a condition that is neither the genesis filter nor the account-type test: "+renderVal(base, 0))
 			}
 			r.Check(loopEarlyExit(*tl) == nil, "C17.summary", "summary loop visits every recorded account", pos, "no early exit", "the loop over the recorded accounts is left early")
+		}
+		// a filter helper that builds the list the loop ranges over: in its own loop a recorded account is left out of the
+		// list only by the genesis filter
+		for _, h := range filtHelpers {
+			for _, l := range rangeLoops(h) {
+				isAppend := func(b *ssa.BasicBlock) bool {
+					return blockHasCall(b, func(c *ssa.Call) bool {
+						bi, ok := c.Common().Value.(*ssa.Builtin)
+						return ok && bi.Name() == "append"
+					})
+				}
+				for _, sc := range loopSkipConds(l, isAppend) {
+					base, _ := stripNot(sc.Cond)
+					o := tr.Origins(base)
+					good := o.HasCall("IsGenesisOrFromGenesis") && !o.HasCall("GetBalance") && !o.HasCall("GetAllBalances") && !o.HasCall("SpendableCoins")
+					r.Check(good, "C17.summary", "filter helper "+funcName(h)+": an account is left out only by the genesis filter", w.Pos(ifPos(sc)), "the genesis filter", "a recorded account can be left out of the list the summary ranges over under a condition that is not the genesis filter: "+renderVal(base, 0))
+				}
+				r.Check(loopEarlyExit(l) == nil, "C17.summary", "filter helper "+funcName(h)+" visits every recorded account", w.Pos(h.Pos()), "no early exit", "the filter loop is left early")
+			}
 		}
 	}
 	if g := w.Func("x/cfevesting/types.VestingAccountTrace.IsGenesisOrFromGenesis"); g != nil {
